@@ -412,6 +412,19 @@ pub fn exec_map(_st: &mut State, t: &[&str]) -> String {
                 "intget" => match IntVectorMapper::new(&map, offset) {
                     Ok(v) => { let xs: Vec<u64> = v.iter().collect(); format!("{} | {}", hdr(&v), words_to_string(&xs)) },
                     Err(e) => io_err(&e) },
+                // integers of several widths at every bit alignment, read through the mapped view
+                "rawints" => match RawVectorMapper::new(&map, offset) {
+                    Ok(v) => {
+                        let mut out: Vec<String> = Vec::new();
+                        for w in [1usize, 7, 13, 32, 56, 57, 58, 59, 61, 63, 64] {
+                            let mut acc: Vec<u64> = Vec::new();
+                            let mut o = 0usize;
+                            while o + w <= v.len() && acc.len() < 150 { acc.push(unsafe { v.int(o, w) }); o += 1; }
+                            out.push(format!("w{}: {}", w, words_to_string(&acc)));
+                        }
+                        format!("{} | {}", hdr(&v), out.join(" ; "))
+                    },
+                    Err(e) => io_err(&e) },
                 "rawbits" => match RawVectorMapper::new(&map, offset) {
                     Ok(v) => { let bits: String = (0..v.len()).map(|i| if v.bit(i) { '1' } else { '0' }).collect(); format!("{} ones={} | {}", hdr(&v), v.count_ones(), bits) },
                     Err(e) => io_err(&e) },
